@@ -215,7 +215,6 @@ func init() {
 	}
 }
 
-func resetInmem() {}
 
 // classifyMiss gives an oracle failure a signature that identifies the failing input shape; the
 // `check` script matches it against known_findings.jsonl.
